@@ -267,14 +267,15 @@ fn pick_threshold(r: &mut Rng, k: usize, hostile: bool) -> u8 {
 }
 
 struct Account { keys: BTreeMap<CredentialIndex, BTreeMap<KeyIndex, KeyPair>>, acc: AccountAccessStructure }
-fn gen_account(r: &mut Rng, pool: &Pool) -> Account {
-    let ncreds = *r.pick(&[1usize, 1, 2, 2, 3, 3, 4, 5, 8, 17, 64, 255, 256]);
+fn gen_account(r: &mut Rng, pool: &Pool) -> Account { gen_account_sized(r, pool, false) }
+fn gen_account_sized(r: &mut Rng, pool: &Pool, small: bool) -> Account {
+    let ncreds = if small { *r.pick(&[1usize, 1, 2, 2, 3, 4, 6]) } else { *r.pick(&[1usize, 1, 2, 2, 3, 3, 4, 5, 8, 17, 64, 255, 256]) };
     let hostile = r.chance(1, 4);
     let cis = distinct_u8(r, ncreds);
     let mut keys = BTreeMap::new();
     let mut pubs = BTreeMap::new();
     for &c in &cis {
-        let nk = if ncreds > 20 { *r.pick(&[1usize, 1, 2, 3]) } else { *r.pick(&[1usize, 1, 2, 2, 3, 3, 4, 6, 8, 30, 255, 256]) };
+        let nk = if small { *r.pick(&[1usize, 1, 2, 2, 3, 5]) } else if ncreds > 20 { *r.pick(&[1usize, 1, 2, 3]) } else { *r.pick(&[1usize, 1, 2, 2, 3, 3, 4, 6, 8, 30, 255, 256]) };
         let kis = distinct_u8(r, nk);
         let kk: BTreeMap<KeyIndex, KeyPair> = kis.iter().map(|&k| (KeyIndex(k), pool.at(c, k).clone())).collect();
         let pk: BTreeMap<KeyIndex, VerifyKey> = kk.iter().map(|(k, kp)| (*k, VerifyKey::from(kp))).collect();
@@ -395,7 +396,8 @@ fn samp(seed: u64, n: u64) {
         }
         // v1: sender + optional sponsor, through the real AccountTransactionV1
         if i % 4 == 0 {
-            let sp = gen_account(&mut r, &pool);
+            let a = gen_account_sized(&mut r, &pool, true);
+            let sp = gen_account_sized(&mut r, &pool, true);
             let payload = EncodedPayload::try_from(rb(&mut r, 60, 1)).unwrap();
             let h0 = rand_header(&mut r, u32::from(payload.size()) as usize);
             let hdr_sponsor = r.chance(3, 4);
